@@ -6,7 +6,7 @@ slot order.  Keys, neighbour slots and incident-cell pointers are NOT serialised
 the vertex slots from the table, the neighbours from facet sharing (`assign_neighbors`: a facet
 shared by more than two cells is an error; a cell whose slots are all empty gets no buffer), the
 incident pointers (`assign_incident_cells`: first cell in storage order containing the vertex)
-and — after the `fix:` commit — rejects malformed elements (Level 1).
+and — after the `fix:` commits — rejects malformed elements (Level 1) and duplicate cells.
 -/
 import DelaunayModel.Model.Cx
 namespace DM.Serde
@@ -49,7 +49,8 @@ def decode (doc : Doc) : Option Cx :=
     | none => none
     | some cells =>
       let K : Cx := { D := doc.D, verts := assignIncident doc.verts cells, cells := cells }
-      if checkL1 K then some K else none
+      -- element validity (fix F7a) and no two cells with the same vertex set (fix F7c)
+      if checkL1 K && noDupCells K then some K else none
 
 /-- comparison modulo the rebuilt incident pointers -/
 def eraseInc (K : Cx) : Cx := { K with verts := K.verts.map (fun v => { v with inc := none }) }
